@@ -718,6 +718,11 @@ mod os {
                 let child_env = config.env.as_deref().map(format_env);
                 let cmd_to_exec = config.executable.as_ref().unwrap_or(&argv[0]);
                 let just_exec = posix::prep_exec(cmd_to_exec, &argv, child_env.as_deref())?;
+                // the C string must exist before the fork: the child may not allocate
+                let child_cwd = match config.cwd {
+                    Some(ref cwd) => Some(posix::os_to_cstring(cwd)?),
+                    None => None,
+                };
                 unsafe {
                     // unsafe because after the call to fork() the
                     // child is not allowed to allocate
@@ -733,7 +738,7 @@ mod os {
                             let result = Popen::do_exec(
                                 just_exec,
                                 child_ends,
-                                config.cwd.as_deref(),
+                                child_cwd.as_deref(),
                                 config.setuid,
                                 config.setgid,
                                 config.setpgid,
@@ -852,7 +857,7 @@ mod os {
         fn do_exec(
             just_exec: impl FnOnce() -> io::Result<()>,
             child_ends: (Option<Rc<File>>, Option<Rc<File>>, Option<Rc<File>>),
-            cwd: Option<&OsStr>,
+            cwd: Option<&std::ffi::CStr>,
             setuid: Option<u32>,
             setgid: Option<u32>,
             setpgid: bool,
@@ -864,13 +869,13 @@ mod os {
         fn do_exec(
             just_exec: impl FnOnce() -> io::Result<()>,
             child_ends: (Option<Rc<File>>, Option<Rc<File>>, Option<Rc<File>>),
-            cwd: Option<&OsStr>,
+            cwd: Option<&std::ffi::CStr>,
             setuid: Option<u32>,
             setgid: Option<u32>,
             setpgid: bool,
         ) -> io::Result<()> {
             if let Some(cwd) = cwd {
-                env::set_current_dir(cwd)?;
+                posix::chdir(cwd)?;
             }
 
             let (stdin, stdout, stderr) = child_ends;
